@@ -87,6 +87,9 @@ Example C14_nonvacuous :
   end.
 Proof. vm_compute. split; reflexivity. Qed.
 
+(* "at most ten peers unchoked plus at most one optimistic unchoke": the code's constants, pinned *)
+Example C14_slots_pinned : MAX_UNCHOKED = 10 /\ MAX_OPTIMISTIC = 1 /\ MAX_OPTIMISTIC_ROUNDS = 3. Proof. repeat split; reflexivity. Qed.
+
 Print Assumptions C14_bitfield_bound.
 Print Assumptions C14_rotation_bound.
 Print Assumptions C14_slots_interested.
